@@ -40,6 +40,16 @@ ASSUMPTIONS = [
 _G = {}
 
 
+def APP():
+    # the application name carries dots (as in "aw-sync-0.12"): the file is <dir>/<name>/<name>.toml with the
+    # name taken literally (seeded: Path.with_suffix replaced everything after the last dot)
+    return f"verif-c20-{os.getpid()}-0.12"
+
+
+FIXED_MTIME_NS = 1_600_000_000_000_000_000  # every user file gets the same mtime (cp -p, restored backups, coarse clocks):
+# what is loaded is what the file SAYS (seeded: parsed user file cached on (path, mtime, size))
+
+
 def set_path(d, path, v):
     for k in path[:-1]:
         d = d.setdefault(k, {})
@@ -198,6 +208,7 @@ def run_pair(app, dflt, user, sd, su, utxt=None):
         utxt = render(user, su)
     with open(path, "w", newline="") as f:
         f.write(utxt)
+    os.utime(path, ns=(FIXED_MTIME_NS, FIXED_MTIME_NS))
     before = open(path, "rb").read()
     try:
         res = load_config_toml(app, dtxt)
@@ -298,7 +309,7 @@ TRICKY_DEFAULTS = ({}, {"a": 1}, {"a": 1, "t": {"a": 1, "b": [1, 2], "u": {"a": 
 def _unit_tricky(_):
     import tomlkit
 
-    app = f"verif-c20-{os.getpid()}"
+    app = APP()
     u = Unit()
     for ui, utxt in enumerate(TRICKY_USER):
         try:
@@ -325,7 +336,7 @@ def _dispatch(args):
 def _unit(args):
     kind, dlist, opts, styles = args
     ctx = _G["ctx"]
-    app = f"verif-c20-{os.getpid()}"
+    app = APP()
     u = Unit()
     n = 0
     for di, dflt in dlist:
@@ -401,7 +412,7 @@ def run(ctx):
 def run_case(ctx, case):
     _G["ctx"] = ctx
     _G["paths"] = PATHS_Q
-    app = f"verif-c20-{os.getpid()}"
+    app = APP()
     if case["kind"] == "first":
         probs = first_run(app, case["default"], case["style"])
         return {"default_toml": render(case["default"], case["style"]), "violations": [list(p) for p in probs]}
@@ -412,5 +423,11 @@ def run_case(ctx, case):
         user = json.loads(json.dumps(tomlkit.parse(utxt).unwrap(), default=str))
         probs = run_pair(app, case["default"], user, case["style"], 0, utxt=utxt)
         return {"default_toml": render(case["default"], case["style"]), "user_toml": utxt, "violations": [list(p) for p in probs]}
+    # replay: in the run this pair followed other user files at the same path with the same mtime; give it
+    # one predecessor of the same length (comment characters only) so that state carried from an earlier
+    # load has something to carry
+    utxt = render(case["user"], case["styles"][1])
+    if len(utxt) > 1:
+        run_pair(app, case["default"], {}, case["styles"][0], 0, utxt="#" * (len(utxt) - 1) + "\n")
     probs = run_pair(app, case["default"], case["user"], case["styles"][0], case["styles"][1])
     return {"default_toml": render(case["default"], case["styles"][0]), "user_toml": render(case["user"], case["styles"][1]), "violations": [list(p) for p in probs]}
